@@ -116,6 +116,19 @@ func TestRace(t *testing.T) {
 		t.Fatal(err)
 	}
 	defer db.Close()
+	var poolWant []string
+	{
+		rows, err := db.Query("SELECT a, b, c FROM t1")
+		if err != nil {
+			t.Fatal(err)
+		}
+		for rows.Next() {
+			var a, b, c interface{}
+			rows.Scan(&a, &b, &c)
+			poolWant = append(poolWant, fmt.Sprint(a, "|", b, "|", c))
+		}
+		rows.Close()
+	}
 	for g := 0; g < 4; g++ {
 		wg.Add(1)
 		go func(g int) {
@@ -128,10 +141,22 @@ func TestRace(t *testing.T) {
 				}
 				n := 0
 				for rows.Next() {
+					var a, b, c interface{}
+					rows.Scan(&a, &b, &c)
+					if n >= len(poolWant) || fmt.Sprint(a, "|", b, "|", c) != poolWant[n] {
+						mu.Lock()
+						mismatch++
+						mu.Unlock()
+					}
 					n++
 					if g%2 == 1 && n == 3 {
 						break
 					}
+				}
+				if rows.Err() != nil || (g%2 == 0 && n != len(poolWant)) {
+					mu.Lock()
+					mismatch++
+					mu.Unlock()
 				}
 				rows.Close()
 			}
